@@ -62,6 +62,24 @@ def inits(keys, vals):
             ["text", [[a, vals[0]], [b2, vals[1]], [c, vals[0]]]]]
 
 
+def extra_inits(keys, vals):
+    """other ways a paragraph comes into being (tree mode only): the same name twice in the parsed text or in the
+    sequence of pairs (the later value, the first spelling), other input forms, and paragraphs that pull their values
+    from a backing paragraph (`_parsed`, with and without `fields`)"""
+    a, a2, b, b2, c = keys
+    dup = [[a, vals[0]], [b2, vals[1]], [a2, vals[1]]]
+    three = [[a, vals[0]], [b2, vals[1]], [c, vals[0]]]
+    return [["text", dup],
+            ["text", [[a, vals[0]], [a, vals[1]], [b, vals[0]]]],
+            ["lines", dup],
+            ["bytes", dup],
+            ["from-deb822", three],
+            ["wrapped", three],
+            ["wrapped", dup],
+            ["wrapped-fields", [[c, vals[0]], [a2, vals[0]]]],
+            ["wrapped-then-set", three]]
+
+
 SORT_KEYS = {"len": len, "const": lambda k: 0}
 
 
@@ -84,6 +102,7 @@ def bounds(tier):
             "operation_kinds": ["set", "del", "get", "in", "len", "iter", "dump", "first", "last", "before (25 pairs)",
                                 "after (25 pairs)", "sort", "sort with tying keys (len, constant)", "copy", "reparse"],
             "initial_states": ["empty", "dict-initialised (2 keys)", "parsed from text (3 keys)"],
+            "other_initial_states": "tree depth 1-2 from: " + ", ".join("%s %s" % (k, "/".join(n for n, _v in p)) for k, p in extra_inits(*alphabet(0))),
             "tree_depth": TREE_DEPTH[tier], "graph": "fixpoint of the abstract state space",
             "graph_tree_depth": GRAPH_TREE_DEPTH, "graph_tree_observation": GRAPH_OBSERVE[tier]}
 
@@ -182,8 +201,27 @@ def build(init):
         return Deb822()
     if kind == "dict":
         return Deb822(dict((k, v) for k, v in pairs))
+    text = "".join("%s: %s\n" % (k, v) for k, v in pairs)
     if kind == "text":
-        return Deb822("".join("%s: %s\n" % (k, v) for k, v in pairs))
+        return Deb822(text)
+    if kind == "lines":
+        return Deb822(text.splitlines())
+    if kind == "bytes":
+        return Deb822(text.encode("utf-8"))
+    if kind == "from-deb822":
+        return Deb822(Deb822(text))
+    if kind == "wrapped":
+        return Deb822(_parsed=Deb822(text))
+    if kind == "wrapped-fields":
+        # the backing paragraph spells and orders the fields differently and has one more
+        back = Deb822("".join("%s: %s\n" % (k.swapcase(), v) for k, v in reversed(pairs)) + "Hidden-Field: h\n")
+        return Deb822(_parsed=back, fields=[k for k, _v in pairs] + ["Not-There"])
+    if kind == "wrapped-then-set":
+        # every field but the first is assigned again on the wrapping paragraph
+        d = Deb822(_parsed=Deb822(text))
+        for k, v in pairs[1:]:
+            d[k] = v
+        return d
     raise AssertionError(init)
 
 
@@ -406,6 +444,12 @@ def units(tier, seed):
         tree(level)
     for observe in GRAPH_OBSERVE[tier][1:]:
         graph(2, observe)
+    # the same tree (depth 1-2) from the other kinds of initial paragraph
+    for level in (1, 2):
+        for i in range(len(extra_inits(keys, vals))):
+            for f in ([None] if level == 1 else range(nops)):
+                out.append({"mode": "tree", "init": i, "prefix": [], "first": f, "level": level, "observe": "end",
+                            "xinit": True})
     # the same tree (depth 1-2) over the alphabet with the length-changing case pair
     nops2 = len(operations(*alphabet2()))
     for level in (1, 2):
@@ -425,7 +469,7 @@ def run_unit(u, tier, seed):
     part = core.Part()
     keys, vals = alphabet2() if u.get("alt") else alphabet(seed)
     ops = operations(keys, vals)
-    init = inits(keys, vals)[u["init"]]
+    init = (extra_inits if u.get("xinit") else inits)(keys, vals)[u["init"]]
     prefix = _ops(u["prefix"])
     level = u["level"]
     every = u["observe"] == "every"
@@ -452,7 +496,7 @@ def run_unit(u, tier, seed):
             part.nontrivial += bool(info["nontrivial"])
         return True
 
-    reps = representatives(seed) if not u.get("alt") else set()
+    reps = representatives(seed) if not (u.get("alt") or u.get("xinit")) else set()
     if u["mode"] == "tree" and level == 1 or u["mode"] == "graph" and level == 1 and len(prefix) > TREE_DEPTH[tier]:
         # the start state itself: an initial paragraph, or an abstract state rebuilt by its shortest history (when
         # that history is short enough to be a tree-mode history the tree unit does this and counts the state)
